@@ -103,3 +103,29 @@ Lemma bmff_alloc_depth dbg buf nodes deep brands :
 Proof.
   intros HL E. pose proof (bmff_read_safe dbg buf HL) as H. rewrite E in H. lia.
 Qed.
+
+(* ------------------------------------------------------------------ the reader as it stands in the source
+   (commit 7b268693b: read_header fills the header or fails; dest_pos by checked_add): both generated flags are
+   true, so the statements hold for every byte string, without a known class *)
+
+Lemma flags_repaired : SHORT_HEADER_IS_ERROR = true /\ DEST_POS_IS_CHECKED = true.
+Proof. split; reflexivity. Qed.
+
+Lemma jumbf_as_coded_total dbg buf : len buf <= U64MAX -> is_result (jread_as_coded dbg buf).
+Proof.
+  intro HL. unfold jread_as_coded. destruct flags_repaired as (-> & ->). apply jumbf_repaired_total. exact HL.
+Qed.
+
+Lemma jumbf_as_coded_bounds dbg buf p b a d :
+  len buf <= U64MAX -> jread_as_coded dbg buf = Ok (p, b, a, d) ->
+  8 * b + a <= len buf /\ p <= len buf /\ d < MAX_JUMB_DEPTH.
+Proof.
+  intros HL E. unfold jread_as_coded in E. destruct flags_repaired as (F1 & F2). rewrite F1, F2 in E.
+  pose proof (jumbf_safe true true dbg buf HL (or_introl eq_refl)) as H. rewrite E in H. lia.
+Qed.
+
+(* the two inputs that defeated the reader before the repair are now plain errors *)
+Lemma old_witnesses_rejected dbg :
+  jread_as_coded dbg hang_witness = Err EInvalidJumbfHeader /\
+  jread_as_coded dbg overflow_witness = Err EInvalidJumbBox.
+Proof. destruct dbg; split; vm_compute; reflexivity. Qed.
